@@ -12,6 +12,7 @@
 #include "uscxml/interpreter/FastMicroStep.h"
 #include "uscxml/util/URL.h"
 #include "faulty.h"
+#include "echo.h"
 #include "transform_ops.h"
 
 extern "C" void usim_entropy_seed(uint64_t seed);
@@ -490,6 +491,7 @@ void warmup() {
 	usim_entropy_seed(12345);
 	Factory::getInstance();
 	registerFaultyDataModels();
+	registerEchoInvoker();
 	LoggerImpl::_defaultLogger = std::shared_ptr<LoggerImpl>(new RecLogger("default"));
 	const char* dms[] = {"null", "lua", "promela"};
 	for (const char* dm : dms) {
